@@ -154,12 +154,12 @@ func checkMapContract(c *mon.Case, what string, node ipld.Node, probes []string,
 						links[i] = fmt.Sprintf("a nil %T pointer returned with a nil error", v)
 						return
 					}
-					cc, e := asCid(v)
-					if e == nil {
-						found[i] = true
+					// a node and no error is an answer "found", whatever the node turns out to be
+					found[i] = true
+					if cc, e := asCid(v); e == nil {
 						links[i] = cc.String()
 					} else {
-						errs[i] = e
+						links[i] = fmt.Sprintf("a %v node that is not a link (%v)", v.Kind(), e)
 					}
 				}
 			})
@@ -301,7 +301,7 @@ func TestC15(t *testing.T) {
 				}
 				class := listClass(links)
 				dirT := pb.Data_Directory
-				probes := append([]string{"", "a", "nope", "n0", "dup ", "DUP", "b"}, pool...)
+				probes := append([]string{"", "a", "nope", "n0", "dup ", "DUP", "b", "Links", "Data", "Hash", "Name", "Tsize"}, pool...)
 				for vi, view := range []struct {
 					name    string
 					data    []byte
